@@ -19,7 +19,7 @@ EXPLANATION = 'explicit enumeration of operation histories on the real Report/Fe
 
 def _setup():
     global Feedback, cmds, MAIN_REPORT, Formatter, HtmlFormatter, Location, CLASSES, CASES, OPS, SNAP, MyFmt
-    global CondT, CondF, CondX, MsgX, Args, Parent, Child, GrandChild
+    global CondT, CondF, CondX, MsgX, Args, Parent, Child, GrandChild, AllFmt
     import importlib
     cmds = importlib.import_module('pedal.core.commands')
     from pedal.core.feedback import Feedback
@@ -66,6 +66,11 @@ def _setup():
         def condition(self, x):
             return x > 0
 
+    class AllFmt(Feedback):
+        category = 'instructor'
+        message_template = ("{a:exception}|{a:filename}|{a:frame}|{a:inputs}|{a:line}|{a:name}|{a:output}|"
+                            "{a:python_code}|{a:python_expression}|{a:python_value}|{b:>6}|{b!r}|{c[0]}|{c[1]:name}")
+
     class Parent(Feedback):
         category = 'instructor'
         title = 'ParentTitle'
@@ -89,11 +94,11 @@ def _setup():
              (g.gently, ('g',)), (g.explain, ('e',)), (g.compliment, ('c',)), (g.give_partial, (.5,)),
              (g.guidance, ('gu',)), (g.set_correct, ()), (g.system_error, ()),
              (initialization_problem, (Location(3), 'v')), (blank_source, ()), (not_enough_sections, (2, 1)),
-             (Parent, ()), (Child, ()), (GrandChild, ())]
+             (Parent, ()), (Child, ()), (GrandChild, ()), (AllFmt, ())]
     kws = [dict(), dict(message="explicit"), dict(message_template="tpl {a}"), dict(label='lab', title='Ti'),
            dict(activate=False), dict(delay_condition=True), dict(muted=True, score='5%'), dict(location=7),
            dict(activate=False, else_message='else!')]
-    extras = [dict(), dict(a=1, b='nm'), dict(fields={'a': [1, 2], 'b': 'q'})]
+    extras = [dict(), dict(a=1, b='nm'), dict(fields={'a': [1, 2], 'b': 'q'}), dict(a='x<1>', b='nm', c=['p', 'q'])]
     CASES = []
     for cls, args in bases:
         for kw in kws:
@@ -131,9 +136,9 @@ def render(template, fields, fmt):
         v = fields[base]
         for r in rest:
             v = getattr(v, r) if not r.isdigit() else v[int(r)]
-        val = str(v)
+        val = repr(v) if conv == 'r' else (ascii(v) if conv == 'a' else str(v))
         spec = spec or ''
-        cands = [m for m in fmt.available if spec.endswith(m)]
+        cands = [m for m in fmt.available if spec.endswith(m)] if not conv else []
         if cands:
             m = cands[0]
             val = getattr(fmt, m)(v)
